@@ -145,3 +145,32 @@ def c03_all_bool_reduction(rec, params):
     src = case.get('f') or {}
     cols = src.get('cols', [])
     return bool(cols) and all(c['dt'][0] == 'b' for c in cols)
+
+
+@classifier
+def zero_sized_source_error(rec, params):
+    cs = (rec.get('case') or {}).get('cs') or {}
+    act = rec.get('actual') or {}
+    src = cs.get('f')
+    if not src or act.get('k') != 'err':
+        return False
+    return len(src['columns']) == 0 or len(src['index']) == 0
+
+
+@classifier
+def fill_widens_block(rec, params):
+    cs = (rec.get('case') or {}).get('cs') or {}
+    exp, act = rec.get('expected') or {}, rec.get('actual') or {}
+    if cs.get('op') not in ('f_fillna', 'f_fillsided') or exp.get('k') != 'frame' or act.get('k') != 'frame':
+        return False
+    na = lambda v: v[0] in ('nan', 'none', 'nat')
+    loose = lambda vals: [['na'] if na(v) else (['i', v[1]] if v[0] == 'f' and v[2] == 1 else v) for v in vals]
+    if exp['index'] != act['index'] or exp['columns'] != act['columns'] or len(exp['cols']) != len(act['cols']):
+        return False
+    for src, e, a in zip(cs['f']['cols'], exp['cols'], act['cols']):
+        if loose(e['vals']) != loose(a['vals']):
+            return False
+        # a dtype difference is the known widening only on a column in which nothing was filled
+        if e['dt'] != a['dt'] and loose(e['vals']) != loose(src['vals']):
+            return False
+    return True
